@@ -1,29 +1,33 @@
 import json, os
 
 SPEC = {
-    "lean_modules": ["SemaModel.C10.Props", "SemaModel.C10.Tie"],
-    "lean_dirs": ["SemaModel/C10", "SemaModel/C03"],
+    "lean_modules": ["SemaModel.C10.Props", "SemaModel.C10.Links", "SemaModel.C10.Tie"],
+    "lean_dirs": ["SemaModel/C10", "SemaModel/C03", "SemaModel/C01"],
     "harness": "c10",
     "harness_args": {"quick": ["-n", 1200, "-len", 14], "thorough": ["-n", 9000, "-len", 18]},
     "timeout": {"quick": 600, "thorough": 2400},
     "level": "proof",
-    "tie": "T3: after every batch of random histories on a real file-backed shard the index/points/internal buckets are dumped through (*Shard).VerifDB() and the Lean executable predicate wfB (the very definition WF of C10_step / C10_history) is evaluated on the dump by the driver; batches that reach the index as one change (single insert worker, deterministic) are replayed by the Lean model `apply` of insertUpdateDelete on the previous dump with the real distance tables (DistanceFromFloat / DistanceFromPoint of a vector store opened on the persisted bucket, Alpha*d as float32) and must reproduce the new dump's edge lists, vectors and maxNodeId exactly (the Go-map order of the rescue step is an oracle: the driver accepts any order of the rescued nodes that reproduces the dump); the index schema keys are flat (v, g) in 45 % and NESTED paths (n.v, n.m.v, a.b.c.v; filter property flat / sibling of the leaf / under another parent) in 55 % of the configurations, documents and updates are trees (updates replace or delete the top-level object above the leaf, carry a sibling only, an empty object, a nil leaf, an unrelated key); for every batch element whose point is named once a `doc` line carries the stored document before, the incoming document and whether the index held a vector for the node: the Lean `pstep` (top-level merge + dec.Query(schema path) on both documents + getOperation/preProcessVamana) must reproduce the document stored afterwards, whether the index holds a vector for the node now and (plain store) which one",
+    "tie": "T3: after every batch of random histories on a real file-backed shard the index/points/internal buckets are dumped through (*Shard).VerifDB() and the Lean executable predicate wfB (the very definition WF of C10_step / C10_history) is evaluated on the dump by the driver; batches that reach the index as one change (single insert worker, deterministic) are replayed by the Lean model `apply` of insertUpdateDelete on the previous dump with the real distance tables (DistanceFromFloat / DistanceFromPoint of a vector store opened on the persisted bucket, Alpha*d as float32) and must reproduce the new dump's edge lists, vectors and maxNodeId exactly (the Go-map order of the rescue step is an oracle: the driver accepts any order of the rescued nodes that reproduces the dump); the index schema keys are flat (v, g) in 45 % and NESTED paths (n.v, n.m.v, a.b.c.v; filter property flat / sibling of the leaf / under another parent) in 55 % of the configurations, documents and updates are trees (updates replace or delete the top-level object above the leaf, carry a sibling only, an empty object, a nil leaf, an unrelated key); for every batch element whose point is named once a `doc` line carries the stored document before, the incoming document and whether the index held a vector for the node: the Lean `pstep` (top-level merge + dec.Query(schema path) on both documents + getOperation/preProcessVamana) must reproduce the document stored afterwards, whether the index holds a vector for the node now and (plain store) which one; batches that reach the index as SEVERAL changes get a `batch` line built from what the index itself recorded (hooks shard/index/vamana/verif_batch_on.go: the change stream the transform function received, what it filed each change under, the node store once the insert workers were waited for, EdgeScan's result): the Lean bookkeeping `classes` must equal the recorded inserted / updated / deleted / touched lists and maxNodeId, the observed mid graph must have the node set the model says and satisfy the Lean `wfB` for the old live points plus the inserted ones (the hypothesis of C10_step_any_workers), its edge lists must equal the model's when at most one point went to the workers, `toPrune` / `toSave` must equal EdgeScan's sets, and the Lean `tail` (removeInboundEdges with any delete set, both Deletes, every re-insert in order) started from the observed mid graph with the real distances must reproduce the dump after the batch exactly (node/vector sets only when the distance tables are not available: quantiser trained in the batch, > 26 vectors, NaN); a `docs` line replays the whole change stream of a multi-element batch (points named several times included) through the Lean `pbatch` against the recorded stream and (plain store) the Lean `vecsAfter` against the raw vector the index persisted per node",
     "required_theorems": [
         "Sema.C10.C10_wf_meaning", "Sema.C10.C10_init", "Sema.C10.C10_step", "Sema.C10.C10_history_from",
         "Sema.C10.C10_history", "Sema.C10.C10_reserved_ids_rejected", "Sema.C10.C10_defect13_witness",
         "Sema.C10.C10_stream_complete", "Sema.C10.C10_stream_live", "Sema.C10.C10_stream_vectors",
         "Sema.C10.C10_shard_step", "Sema.C10.C10_shard_history_from", "Sema.C10.C10_shard_history",
         "Sema.C10.C10_withheld_change_witness",
+        # multi-change batches and the parallel insert workers
+        "Sema.C10.C10_apply_phases", "Sema.C10.C10_classes", "Sema.C10.C10_step_any_workers", "Sema.C10.C10_sequential_workers",
+        # the last clause of the property (SemaModel/C10/Links.lean): by import from C01 and C03
+        "Sema.C10.C10_ids", "Sema.C10.C10_ids_store", "Sema.C10.C10_search_ok",
         # tie theorems (SemaModel/C10/Tie.lean): changeOf = the getOperation generated from shard/index/utils.go + Dispatch's tests + preProcessVamana
         "Sema.C10.C10_tie_changeOf", "Sema.C10.C10_tie_qv_error", "Sema.C10.C10_tie_changeOf_eq",
     ],
     "trusted_base": [
         "SemaModel/C10/Model.lean + SemaModel/C03/Model.lean: hand-written model of insertUpdateDelete / insertSinglePoint / robustPrune / removeInboundEdges / EdgeScan / pruneDeleteNeighbour / greedySearch / DistSet; tied to the code by the correspondence above, not by translation",
-        "insert workers are modelled sequentially (one of the real schedules); other interleavings are covered by evaluating WF on dumps after real multi-point batches only",
+        "insert workers: `apply` runs them sequentially (one of the real schedules). C10_step_any_workers covers every other behaviour under ONE hypothesis about the graph the workers leave (well-formed for the old live points plus the inserted ones); that hypothesis is not proved for the parallel Go workers, it is evaluated by the Lean predicate on the node store observed at that moment of every real multi-change batch that touches existing points, and on the dump after every batch otherwise",
         "a rejected batch leaves the persisted state unchanged (bbolt rollback + scrapped shared cache: C07/C11)",
         "SemaModel/C10/Model.lean, section 'the point store and the index change stream' (Doc / query / mergeDoc / changeOf / pstep / pbatch): hand-written model of the transform functions of InsertPoints / UpdatePoints / DeletePoints and of getOperation / preProcessVamana, documents flattened to leaf paths; tied by the `doc` lines above; msgpack's Decoder.Query is modelled (value at a dotted path, nil = absent, error on a scalar in the way), not translated",
         "ItemCache / bbolt / msgpack: the flushed bucket content equals the in-memory stores after a successful batch (C08); documents decode with msgpack (the harness decides 'carries the field' by decoding n<id>d)",
-        "node ids in the change stream are those of the point store: unique among live points, an inserted id is not live (C01's invariant; observed on every dump by the harness: uuid<->node id maps are mutually inverse, free list disjoint from live ids, without duplicates and below nextFreeNodeId, pointCount exact)",
+        "node ids in the change stream are those of the point store: unique among live points, an inserted id is not live (C10_ids = C01's invariant C01_history; the two models are linked by the key list only — `C10_ids_store` — not by a simulation between C01's and C10's document types; also observed on every dump by the harness: uuid<->node id maps are mutually inverse, free list disjoint from live ids, without duplicates and below nextFreeNodeId, pointCount exact)",
         "an index bucket that was never written is identified with the fresh index (entry node only): NewIndexVamana materialises the entry node with a random vector on first use",
     ],
     "assumptions": [
